@@ -307,6 +307,54 @@ def install(it):
             fn=fn, name=name or ("%s#loop%d" % (qualname.rsplit(".", 1)[-1], ordinal)), havoc=list(havoc))
     reg("loop_invariant", loop_invariant)
 
+    def extract_block(it_, ctx, qualname, first, last, params):
+        """mechanical extraction (on every run, from the current source) of a contiguous statement block of
+        a repo function: from the first statement whose source starts with `first` up to and including the
+        first later statement whose source starts with `last`, in the same statement list.  The block becomes
+        a function of `params` that returns its local variables.  Dropped: everything of the enclosing
+        function outside the block (the harness supplies the block's inputs)."""
+        import ast as _ast
+        fn = it_.resolve(qualname, ctx)
+        fn = fn.fget if isinstance(fn, PropertyVal) else fn
+        while isinstance(fn, FuncVal) and fn.closure is not None and "fn" in fn.closure.locals and fn.name.startswith("_lazy"):
+            fn = fn.closure.locals["fn"]          # unwrap lazy_property
+        src = it_.sources[fn.module.name]
+        found = None
+        for node in _ast.walk(fn.node):
+            for field in ("body", "orelse", "finalbody"):
+                stmts = getattr(node, field, None)
+                if not isinstance(stmts, list):
+                    continue
+                for i, st in enumerate(stmts):
+                    seg = (_ast.get_source_segment(src, st) or "").strip()
+                    if seg.startswith(first):
+                        for j in range(i, len(stmts)):
+                            seg2 = (_ast.get_source_segment(src, stmts[j]) or "").strip()
+                            if seg2.startswith(last):
+                                found = stmts[i:j + 1]
+                                break
+                    if found:
+                        break
+                if found:
+                    break
+            if found:
+                break
+        if not found:
+            raise Unsupported("stale contract: block %r .. %r not found in %s" % (first, last, qualname))
+        ret = _ast.Return(value=_ast.Call(func=_ast.Name(id="__block_locals__", ctx=_ast.Load()), args=[], keywords=[]))
+        fd = _ast.FunctionDef(name="__block__", args=_ast.arguments(posonlyargs=[], args=[_ast.arg(arg=p_) for p_ in params],
+                              vararg=None, kwonlyargs=[], kw_defaults=[], kwarg=None, defaults=[]),
+                              body=list(found) + [ret], decorator_list=[], returns=None, type_comment=None)
+        _ast.fix_missing_locations(fd)
+        for n_ in _ast.walk(fd):
+            if not hasattr(n_, "lineno"):
+                n_.lineno = 0
+                n_.col_offset = 0
+        f2 = FuncVal(fd, fn.module, None, [], {}, qualname + ".<block:%s>" % first[:30], owner_cls=fn.owner_cls)
+        ctx.notes.append("extracted block of %s: %d statements from %r to %r" % (qualname, len(found), first, last))
+        return f2
+    reg("extract_block", extract_block)
+
     def harness(it_, ctx, *a, **k):
         def deco(f):
             f.attrs["harness"] = dict(k)
